@@ -84,6 +84,9 @@ func uiFor(u pluginproto.UI, calls *[]string) *plugin.ClientUI {
 }
 
 // converse runs one conversation against the real client. machine: "recipient", "identity-as-recipient", "identity".
+// hung is set once a call into the plugin client did not return; exploration stops then.
+var hung bool
+
 func converse(machine string, send string, exitEarly bool, u pluginproto.UI, stanzas []*age.Stanza, fileKey []byte) (r runResult) {
 	script := filepath.Join(dir, "script.json")
 	logf := filepath.Join(dir, "log.json")
@@ -230,7 +233,7 @@ func main() {
 				}
 			}
 			if kinds["request"] {
-				for _, v := range []string{"nil", "err", "value:"} {
+				for _, v := range []string{"nil", "err", "value:", "value:" + strings.Repeat("s", 47), "value:" + strings.Repeat("s", 48), "value:" + strings.Repeat("s", 49), "value:" + strings.Repeat("s", 100)} {
 					u := base
 					u.Request = v
 					out = append(out, u)
@@ -298,9 +301,12 @@ func main() {
 
 		runMachine := func(machine string, alpha []msg, depth int) {
 			c.Part(machine)
-			c.Bound("%s state machine: every conversation of <= %d plugin messages over %d message kinds (each command valid and malformed, commands of the other machine, unknown, grease, opening lines longer than 4 KiB, 5 framing errors, done), each followed by end of stream; conversations containing a UI command under every answer of that callback (absent, error, values); plus a plugin that exits before reading anything", machine, depth, len(alpha))
+			c.Bound("%s state machine: every conversation of <= %d plugin messages over %d message kinds (each command valid and malformed, commands of the other machine, unknown, grease, opening lines longer than 4 KiB, 5 framing errors, done), each followed by end of stream; conversations containing a UI command under every answer of that callback (absent, error, values incl. secrets of 47, 48, 49 and 100 bytes); plus a plugin that exits before reading anything", machine, depth, len(alpha))
 			var rec func(seq []int)
 			exec1 := func(seq []int) {
+				if hung {
+					return
+				}
 				var send strings.Builder
 				kinds := map[string]bool{}
 				var names []string
@@ -334,8 +340,11 @@ func main() {
 						return map[string]interface{}{"machine": machine, "plugin_messages": names, "ui": fmt.Sprintf("%+v", u), "model": fmt.Sprintf("class=%s state=%s replies=%d", model.Class, model.State, len(model.Replies)), "client_error": lab.ErrText(r.err), "client_wrote": ev.Clip(r.wrote, 900)}
 					}
 					if r.hang {
-						c.Fail("hang", id, "client did not return although the plugin closed its output", det())
-						continue
+						c.Fail("hang", id, "client did not return within a minute although the plugin closed its output (it ignores SIGINT and exits when its input is closed)", det())
+						// the remaining conversations would each wait a minute as well: give up on this machine
+						c.NotExhaustive("conversations of the " + machine + " machine abandoned after a call that never returned")
+						hung = true
+						return
 					}
 					if r.pan != "" {
 						c.Fail("panic", id, r.pan, det())
@@ -403,6 +412,9 @@ func main() {
 				}
 			}
 			rec = func(seq []int) {
+				if hung {
+					return
+				}
 				exec1(seq)
 				if len(seq) == depth {
 					return
@@ -411,7 +423,7 @@ func main() {
 					if len(seq) == 1 && !c.MineKey(seq[0]*len(alpha)+i) {
 						continue
 					}
-					if c.Expired() {
+					if c.Expired() || hung {
 						return
 					}
 					rec(append(append([]int{}, seq...), i))
@@ -426,9 +438,14 @@ func main() {
 				}
 				depth = saved
 				// plugin that stops before reading anything
-				r := converse(machine, "", true, pluginproto.UI{}, unwrapStanzas[0], fileKey)
+				r := runResult{hang: true}
+				if !hung {
+					r = converse(machine, "", true, pluginproto.UI{}, unwrapStanzas[0], fileKey)
+				}
 				c.Eval(1)
-				if r.hang || r.err == nil || errors.Is(r.err, age.ErrIncorrectIdentity) {
+				if hung {
+					// already reported
+				} else if r.hang || r.err == nil || errors.Is(r.err, age.ErrIncorrectIdentity) {
 					c.Fail("early-exit", "exit-before-phase1", fmt.Sprintf("plugin that exits at once: hang=%v err=%v", r.hang, r.err), nil)
 				}
 			}
@@ -462,7 +479,24 @@ func main() {
 				pid, _ := plugin.NewIdentity(plugin.EncodeIdentity("sim", []byte("identity data")), &plugin.ClientUI{})
 				c.Eval(1)
 				c.DistinctOnce(uint64(7000 + i))
-				res := lab.DecryptBytes(file, false, pid, x0.Id)
+				if hung {
+					break
+				}
+				var res lab.DecResult
+				done := make(chan struct{})
+				go func() {
+					defer close(done)
+					res = lab.DecryptBytes(file, false, pid, x0.Id)
+				}()
+				select {
+				case <-done:
+				case <-time.After(60 * time.Second):
+					c.Fail("hang", fmt.Sprintf("dc%d", i), "age.Decrypt with a plugin identity did not return within a minute", nil)
+					hung = true
+				}
+				if hung {
+					break
+				}
 				if !res.OK() || string(res.Plain) != "payload" {
 					c.Fail("later-identities-not-tried", fmt.Sprintf("dc%d", i), fmt.Sprintf("Decrypt with a non-matching plugin identity first fails: %v", res.DecryptErr), nil)
 				}
